@@ -270,6 +270,19 @@ def rule_keyword_compare(ctx):
                     if not ci:
                         sides = (n.args[1], [words], None)
                 if not sides:
+                    # a keyword looked up in a table with string keys is a comparison with each key: D.get(x), D[x], x in D
+                    def str_keys(d):
+                        dd = m.consts.get(d.id) if isinstance(d, ast.Name) else d
+                        if isinstance(dd, ast.Dict) and dd.keys and all(isinstance(k, ast.Constant) and isinstance(k.value, str) for k in dd.keys):
+                            return [k.value for k in dd.keys]
+                        return None
+                    if isinstance(n, ast.Call) and isinstance(n.func, ast.Attribute) and n.func.attr == "get" and n.args and str_keys(n.func.value):
+                        sides = (n.args[0], str_keys(n.func.value), None)
+                    elif isinstance(n, ast.Subscript) and isinstance(n.ctx, ast.Load) and str_keys(n.value) and not isinstance(n.slice, ast.Constant):
+                        sides = (n.slice, str_keys(n.value), None)
+                    elif isinstance(n, ast.Compare) and len(n.ops) == 1 and isinstance(n.ops[0], (ast.In, ast.NotIn)) and str_keys(n.comparators[0]):
+                        sides = (n.left, str_keys(n.comparators[0]), n.ops[0])
+                if not sides:
                     continue
                 e, consts, op = sides
                 nsites += 1
